@@ -109,6 +109,8 @@ func runC16(w *World, r *Report, tier string) {
 	}
 	ruleNoOrderDep(w, r, nil)
 	ruleMapLoopCommutative(w, r, nil)
+	ruleNoSkip(w, r, "integrate.MergeExtendedSpatialIds")
+	ruleCacheKey(w, r, nil)
 	ruleOverlapAlign(w, r) // establishes the singleton exemption of NOORDERDEP
 	ruleNonDetSources(w, r)
 	for _, n := range []string{"integrate.ChangeExtendedSpatialIdsZoom", "integrate.ChangeSpatialIdsZoom", "integrate.MergeExtendedSpatialIds", "integrate.MergeSpatialIds",
